@@ -596,7 +596,12 @@ func (g *gen) resource(d int, vars []string) N {
 	}
 	keep, fs := fmt.Sprintf("keep%d", g.rctr), fmt.Sprintf("fs%d", g.rctr)
 	held := func() N { return g.m(N{"k": "held", "e": N{"k": "var", "n": keep}}) }
-	body := append([]any{N{"k": "setq", "n": keep, "e": N{"k": "var", "n": fs}}, held()}, g.body(d-1, vars)...)
+	body := []any{N{"k": "setq", "n": keep, "e": N{"k": "var", "n": fs}}, held()}
+	if g.one(3) {
+		// the body closes the stream itself and goes on (to an exit, an error or its end)
+		body = append(body, N{"k": "closeres", "e": N{"k": "var", "n": fs}}, held())
+	}
+	body = append(body, g.body(d-1, vars)...)
 	return N{"k": "let", "bs": []any{N{"n": keep, "e": lit(nilV()), "bare": g.rng.Intn(3)}}, "body": []any{
 		N{"k": "protect", "e": N{"k": "withfile", "var": fs, "body": body}, "cleanup": []any{held()}}}}
 }
@@ -978,6 +983,8 @@ func render(n N) string {
 	case "withfile":
 		return fmt.Sprintf("(with-open-file (%s vheld-file-name :direction :output :if-exists :supersede :if-does-not-exist :create)%s)",
 			n["var"], rlist(n["body"].([]any)))
+	case "closeres":
+		return fmt.Sprintf("(progn (close %s) t)", render(n["e"].(N)))
 	case "held":
 		return fmt.Sprintf("(vheld %s)", render(n["e"].(N)))
 	case "var":
